@@ -3,9 +3,9 @@ package vs
 import (
 	"bytes"
 	"context"
+	"runtime/pprof"
 	"strconv"
 	"strings"
-	"runtime/pprof"
 	"unsafe"
 )
 
